@@ -192,6 +192,12 @@ def check_identity(idx, typer, rule, f, call: ast.Call) -> None:
 		rule.undecided(f'{tag}:identity', where, f'identity is not a dict literal: {unparse(ident_expr)}')
 		return
 	ident_src = [unparse(v) for v in ident_expr.values]
+	# a stamp must enter the identity losslessly: str(<loader>.mtime(p)) / <loader>.hash(p); rounding or truncation lets an edit keep the old cache file name
+	for k_, v_ in zip(ident_expr.keys, ident_expr.values):
+		stamps = [c for c in ast.walk(v_) if isinstance(c, ast.Call) and isinstance(c.func, ast.Attribute) and c.func.attr in ('mtime', 'hash', 'getmtime')]
+		for c in stamps:
+			plain = v_ is c or (isinstance(v_, ast.Call) and isinstance(v_.func, ast.Name) and v_.func.id in ('str', 'repr') and len(v_.args) == 1 and v_.args[0] is c)
+			rule.check(plain, f'{tag}:lossless:{unparse(k_)}', (f.module.relpath, v_.lineno), f'identity entry {unparse(k_)} = `{unparse(v_)}` wraps the file stamp in a lossy conversion: two versions of the file whose stamps differ only below that precision share one cache file, so an edited module is served from the stale cache', unparse(v_))
 	key_src = unparse(key_expr)
 	# locals that feed the key (e.g. basepath = module_path_to_filepath(module_path))
 	derived: dict[str, str] = {}
